@@ -79,7 +79,7 @@ theorem chunkLoop_append {fuel B : Nat} {ex : Int} {s d r : Bytes}
               split at h
               · next r3 heq =>
                 cases hrec : chunkLoop fuel B
-                    (max (ex + (line.length : Int) + 2 - (16 + 2 * (n : Int))) 0) r3 with
+                    (max (wrap64 (ex + (line.length : Int) + 2 - (16 + 2 * (n : Int)))) 0) r3 with
                 | mk d' e' =>
                   simp only [hrec, Prod.mk.injEq] at h
                   obtain ⟨rfl, rfl⟩ := h
